@@ -11,11 +11,14 @@ import (
 	"github.com/zeromicro/go-zero/internal/verifh"
 )
 
-// c20ProbeSections (development tool, C20_PROBE=1): for every (slot, kind) the generator can ask for,
-// programs whose only comments are of that kind at that slot.
-func c20ProbeSections(r *verifh.Rng) []verifh.Section {
+// c20SweepSections: for every (slot, kind) pair the generator can ask for - every position between two
+// tokens of the grammar x every comment form that position admits - `per` programs whose only comments are
+// of that form at that position. The pairs are discovered by running the generator itself. With C20_PROBE=1
+// this is the whole output (development tool used to find the known defect classes: C20_PROBE_N programs
+// per pair, C20_PROBE_SLOT filters).
+func c20SweepSections(r *verifh.Rng, per int, label string) []verifh.Section {
 	seen := map[string]bool{}
-	for i := 0; i < 3000; i++ {
+	for i := 0; i < 4000; i++ {
 		g := &gen{r: r.Fork(), comments: 2, tricky: i%3 == 0, multiLine: true, class: c20Classes[i%3]}
 		g.program()
 		for k := range g.slots {
@@ -27,15 +30,14 @@ func c20ProbeSections(r *verifh.Rng) []verifh.Section {
 		keys = append(keys, k)
 	}
 	sort.Strings(keys)
-	per := 40
-	if v := os.Getenv("C20_PROBE_N"); v != "" {
+	if v := os.Getenv("C20_PROBE_N"); v != "" && label == "probe" {
 		fmt.Sscanf(v, "%d", &per)
 	}
 	var secs []verifh.Section
 	for _, key := range keys {
 		i := strings.LastIndex(key, "/")
 		slot, kn := key[:i], key[i+1:]
-		if f := os.Getenv("C20_PROBE_SLOT"); f != "" && !strings.Contains(key, f) {
+		if f := os.Getenv("C20_PROBE_SLOT"); f != "" && label == "probe" && !strings.Contains(key, f) {
 			continue
 		}
 		kind := cmKind(0)
@@ -59,15 +61,20 @@ func c20ProbeSections(r *verifh.Rng) []verifh.Section {
 		default:
 			only = "type"
 		}
+		class := slotClass(slot)
+		if class == "inner-comment" && kind == kIB {
+			class = ""
+		}
 		got := 0
 		for try := 0; try < 4000 && got < per; try++ {
-			g := &gen{r: r.Fork(), force: &forced{slot, kind}, only: only, tricky: try%3 == 0, starSlash: os.Getenv("C20_PROBE_STAR") != ""}
+			g := &gen{r: r.Fork(), force: &forced{slot, kind}, only: only, tricky: label == "probe" && try%3 == 0,
+				starSlash: os.Getenv("C20_PROBE_STAR") != "", class: class}
 			chunks := g.program()
 			if g.hits == 0 {
 				continue
 			}
 			got++
-			s := sectionOf("probe", got, g, chunks)
+			s := sectionOf(label, got, g, chunks)
 			s.Cfg += " probe=" + key
 			secs = append(secs, s)
 		}
